@@ -247,6 +247,14 @@ def _polarized_mode(ct, tier, seed):
             inputs = {'lens': par, 'state': st}
             note('C16.runtime.polarized_trace_keeps_aperture_absorption_and_simple_coating_losses',
                  bool(np.allclose(r.i, scalar, rtol=1e-9, atol=1e-12, equal_nan=True)), 'polarized %s vs scalar %s' % (np.round(r.i[:4], 4), np.round(scalar[:4], 4)), inputs)
+            # the record of the image surface is the intensity of the rays as returned (analyses read it from there)
+            Lf = mk()
+            Lf.surface_group.set_fresnel_coatings()
+            Lf.set_polarization(create_polarization(st))
+            rf_ = Lf.trace(0.0, 0.0, 0.55, 3, 'hexapolar')
+            note('C16.runtime.image_surface_record_is_the_returned_ray_intensity',
+                 bool(np.allclose(np.array(Lf.surface_group.intensity, dtype=float)[-1], rf_.i, rtol=1e-12, atol=0, equal_nan=True)),
+                 'record %s vs rays %s' % (np.round(np.array(Lf.surface_group.intensity, dtype=float)[-1][:3], 4), np.round(rf_.i[:3], 4)), inputs)
             note('C16.runtime.per_surface_records_carry_the_scalar_losses_in_polarized_mode',
                  bool(np.allclose(np.array(Lp.surface_group.intensity, dtype=float)[:-1], rec[:-1], rtol=1e-9, atol=1e-12, equal_nan=True)), '', inputs)
     return {'contract': ct.name, 'functions': ct.functions, 'props': ct.props,
